@@ -681,6 +681,23 @@ func (w *World) externFor(fn *ssa.Function, key string) *Contract {
 	return w.externs[key]
 }
 
+// stripTypeArgs removes every [...] group from a function name.
+func stripTypeArgs(n string) string {
+	var b strings.Builder
+	depth := 0
+	for _, r := range n {
+		switch {
+		case r == '[':
+			depth++
+		case r == ']':
+			depth--
+		case depth == 0:
+			b.WriteRune(r)
+		}
+	}
+	return b.String()
+}
+
 func (w *World) bindContract(p *packages.Package, c *Contract, where string) error {
 	sp := w.prog.Package(p.Types)
 	var found *ssa.Function
@@ -691,6 +708,31 @@ func (w *World) bindContract(p *packages.Package, c *Contract, where string) err
 		if fn.RelString(p.Types) == c.Key {
 			found = fn
 			break
+		}
+	}
+	if found == nil {
+		// a method of a generic type may be named without its type-parameter list: (*SequenceTracker).Next
+		for fn := range w.allFns {
+			if fn.Pkg != sp || fn.Synthetic != "" || len(fn.TypeArgs()) != 0 {
+				continue
+			}
+			if stripTypeArgs(fn.RelString(p.Types)) == stripTypeArgs(c.Key) && strings.Contains(fn.RelString(p.Types), "[") {
+				found = fn
+				break
+			}
+		}
+	}
+	if found == nil {
+		// methods of generic types are only reachable through their instantiations: verify the generic body
+		for fn := range w.allFns {
+			o := fn.Origin()
+			if o == nil || o.Pkg != sp || o.Blocks == nil {
+				continue
+			}
+			if stripTypeArgs(o.RelString(p.Types)) == stripTypeArgs(c.Key) {
+				found = o
+				break
+			}
 		}
 	}
 	if found == nil {
